@@ -753,8 +753,23 @@ def stream_lazy(prog: Program) -> RuleResult:
     # list(...), make_list(...), sorted(...) of it - also as the first iterable of a generator expression, which is evaluated when the
     # expression is created - pulls everything while the query is still being built and keeps strong references to all of it.
     eager_helpers = _eager_params(prog)
-    for q, m in sorted(bt.wrapper_stores.items()):
-        params = set(m.params[1:] if m.cls is not None else m.params)
+    # ... and the functions in front of them: one that hands a parameter of its own on to such a method (Variable._update_domain_ ->
+    # HashedIterable.set_iterable) is judged on that parameter alike - `domain = iter(tuple(domain))` before the hand-over reads the instances
+    # of a domain-less variable when let(...) runs, not when the query is evaluated
+    targets = {q: (m, set(m.params[1:] if m.cls is not None else m.params)) for q, m in bt.wrapper_stores.items()}
+    for _ in range(2):
+        names = {m.name for m, _p in targets.values()}
+        for f in sorted(prog.functions.values(), key=lambda x: x.qual):
+            if f.qual in targets or ".entity_query_language." not in f.qual:
+                continue
+            own = set(f.params[1:] if f.cls is not None else f.params)
+            fed = set()
+            for c_ in calls_in(f.node):
+                if call_name(c_) in names and isinstance(c_.func, ast.Attribute):
+                    fed |= {a_.id for a_ in c_.args if isinstance(a_, ast.Name) and a_.id in own}
+            if fed:
+                targets[f.qual] = (f, fed)
+    for q, (m, params) in sorted(targets.items()):
         # positions that run later: lambda bodies, and everything of a generator expression except its first iterable
         later = set()
         for x in ast.walk(m.node):
